@@ -985,6 +985,14 @@ FAMS = {
     'fused': dict(X=['rn3', 'rn3w2', 'rn3wa'], f=('l2sq', 0.5), absorb='f_shift',
                   blocks=[('l1', 1.0, 'D', 'nat'), ('l1', 0.5, 'I', 'nat')], xv=XV,
                   solvers=PD4),
+    # the same with two operators of EQUAL range (rn3 -> rn3 twice) and different g_i
+    'fused_eq': dict(X=['rn3', 'rn3w2', 'rn3wa'], f=('l2sq', 0.5), absorb='f_shift',
+                     blocks=[('l1', 1.0, 'M', 'nat'), ('l2', 2.0, 'I', 'pat')], xv=XV,
+                     solvers=PD4),
+    # ridge regression: 1/2||x-a||^2 + ||Mx-b||^2: f AND g^* strongly convex, both proximals
+    # depend on their step (accelerated pdhg on either side)
+    'ridge': dict(X=['rn3', 'rn3wa'], f=('l2sq', 0.5), absorb='f_shift',
+                  blocks=[('l2sq', 1.0, 'M', 'pat')], xv=XV, solvers=PD4),
     # lasso with the data term behind the operator: ||x||_1 + ||Mx - b||^2
     'lasso_g': dict(X=['rn3', 'rn3wa'], f=('l1', 1.0), absorb='g_data',
                     blocks=[('l2sq', 1.0, 'M', 'data')], xv=XV, solvers=PD4),
@@ -1044,8 +1052,10 @@ class Watch(object):
     """callback: distance to x* and KKT residual of every iterate; stops the run (by raising)
     once both are three orders of magnitude below the judged tolerances."""
 
-    def __init__(self, P, yobj=None, diag=None):
+    def __init__(self, P, yobj=None, diag=None, loose=1.0, early=1e-3):
         self.P = P
+        self.loose = loose       # factor on the judged tolerances (accelerated pdhg: O(1/N) rate)
+        self.early = early
         self.k = 0
         self.last = None
         self.nx = R.wnorm(P.xs, P.wx)
@@ -1062,6 +1072,7 @@ class Watch(object):
         self.res = self.P.ref.residual(z, self.P.ys)
 
     def ok(self, f=1.0):
+        f = f * self.loose
         if not self.P.unique:           # solution set not a singleton: sub-gradient inclusion only
             return self.res <= f * 1e-6 * self.scale
         return (self.dist <= f * 1e-5 * (1.0 + self.nx) and self.res <= f * 1e-6 * self.scale)
@@ -1079,9 +1090,9 @@ class Watch(object):
         self.dist = R.wnorm(z - self.P.xs, self.P.wx)
         if not np.isfinite(self.dist):
             raise _Diverged()           # NaN / inf iterate: no point in running on
-        if self.dist <= 1e-5 * (1.0 + self.nx) or not self.P.unique:
+        if self.dist <= self.loose * 1e-5 * (1.0 + self.nx) or not self.P.unique:
             self.res = self.P.ref.residual(z, self.P.ys)
-            if self.ok(1e-3):
+            if self.ok(self.early):
                 raise _Stop()
 
 
@@ -1103,6 +1114,24 @@ def _grids(solver, P, tier):
         if thorough:
             out.append({'tau': 0.5 / nrm, 'sigma': None, 'tag': 'tau-only'})
             out.append({'tau': None, 'sigma': 2.0 / nrm, 'tag': 'sigma-only'})
+        # acceleration (variable theta, tau, sigma): documented as admissible for gamma_primal up
+        # to the strong-convexity modulus of f, resp. gamma_dual up to the modulus of g^*
+        # (= 1 / Lipschitz constant of grad g); moduli in the spaces' own norms from the reference
+        mu_f = P.ref.f.strong
+        lip_g = P.ref.g.lip
+        mu_gc = 1.0 / lip_g if 0 < lip_g < INF else 0.0
+        acc = []
+        if mu_f > 0:
+            acc += [('gamma_primal', mu_f, 0.9, 1.0), ('gamma_primal', 0.5 * mu_f, 0.5, 4.0)]
+        if mu_gc > 0:
+            acc += [('gamma_dual', mu_gc, 0.9, 1.0), ('gamma_dual', 0.5 * mu_gc, 0.5, 0.25)]
+        for i, (key, gam, p, rho) in enumerate(acc):
+            if not thorough and i % 2:
+                continue
+            out.append({'tau': np.sqrt(p * rho) / nrm, 'sigma': np.sqrt(p / rho) / nrm,
+                        'acc': {key: gam},
+                        'tag': 'accelerated,%s=%s*modulus,tau*sigma*|L|^2=%s,tau/sigma=%s' % (
+                            key, 1.0 if i % 2 == 0 else 0.5, p, rho)})
     elif solver == DR:
         m = len(P.norms)
         s1 = sum(P.norms)
@@ -1156,9 +1185,9 @@ def _call_ns(solver, P, st, x, niter, cb, inject=None):
     """one call of the real solver; `inject` = (y, x_relax) elements for pdhg"""
     if solver == PDHG:
         g, L = _combined(P)
-        kw = {}
+        kw = dict(st.get('acc') or {})
         if inject is not None:
-            kw = {'y': inject[0], 'x_relax': inject[1]}
+            kw.update({'y': inject[0], 'x_relax': inject[1]})
         return odl.solvers.pdhg(x, P.f, g, L, niter, tau=st['tau'], sigma=st['sigma'],
                                 callback=cb, **kw)
     if solver == DR:
@@ -1260,11 +1289,13 @@ def run_ns(cfg):
     diag_runs = 0
     nfp = 0
     iters = []
+    acc_iters = []
     live = not cfg.get('deg')
     for st in _grids(solver, P, tier):
+        accel = bool(st.get('acc'))
         site = '%s,%s]' % (site0, 'default-steps' if st['tag'] in ('default', 'tau-only',
                                                                     'sigma-only')
-                           else 'explicit-steps')
+                           else ('accelerated-steps' if accel else 'explicit-steps'))
         info = 'problem=%s steps={%s}' % (
             dict((k, v) for k, v in cfg.items() if k not in ('kind', 'tier', 'K')), st['tag'])
         eff, adm = _effective_steps(solver, P, st, cfg)
@@ -1277,7 +1308,7 @@ def run_ns(cfg):
         try:
             # ---- (i) fixed point
             if _fixed_point_applicable(solver, P):
-                for nit in (1, 3):
+                for nit in ((1, 3, 10) if accel else (1, 3)):
                     x = S.from_flat(P.X, P.xs.copy())
                     inject = None
                     if solver == PDHG:
@@ -1328,17 +1359,24 @@ def run_ns(cfg):
                 x = S.from_flat(P.X, x0.copy())
                 inject = None
                 diag = None
-                if solver == PDHG and eff is None:
+                if solver == PDHG and eff is None and not accel:
                     _, L = _combined(P)
                     inject = (L.range.zero(), x.copy())
                     diag = _pdhg_lyapunov(P, st)
                 if solver == PG and st['gamma'] * P.lip_h <= 1.0 and st['lam'] == 1.0:
                     diag = _pg_objective(P)
-                w = Watch(P, yobj=None if inject is None else inject[0], diag=diag)
+                if accel:
+                    # the accelerated scheme converges like O(1/N): a shorter horizon and 100x
+                    # looser tolerances (|x-x*| <= 1e-3 (1+|x*|), residual <= 1e-4 scale)
+                    w = Watch(P, loose=100.0, early=0.1)
+                    Krun = K_ACC
+                else:
+                    w = Watch(P, yobj=None if inject is None else inject[0], diag=diag)
+                    Krun = K
                 stopped = False
                 _seed(cfg)
                 try:
-                    _call_ns(solver, P, st, x, K, w, inject)
+                    _call_ns(solver, P, st, x, Krun, w, inject)
                 except _Stop:
                     stopped = True
                 except _Diverged:
@@ -1366,10 +1404,14 @@ def run_ns(cfg):
                             'no_convergence_within_horizon',
                             '%s x0=%s: after K=%d iterations x=%s, x*=%s%s, |x-x*|=%.3e '
                             '(tolerance %.1e), KKT residual %.3e (tolerance %.1e)' % (
-                                info, x0.tolist(), K, z.tolist(), P.xs.tolist(),
+                                info, x0.tolist(), Krun, z.tolist(), P.xs.tolist(),
                                 '' if P.unique else ' (one of many solutions, not judged)',
-                                w.dist, 1e-5 * (1 + w.nx), w.res, 1e-6 * w.scale)))
-                iters.append(w.k)
+                                w.dist, w.loose * 1e-5 * (1 + w.nx), w.res,
+                                w.loose * 1e-6 * w.scale)))
+                if not accel:
+                    iters.append(w.k)
+                else:
+                    acc_iters.append(w.k)
                 sigs.add('%s:%s:%s' % (solver, 'conv' if (stopped or w.ok()) else 'noconv',
                                        int(np.log2(max(w.k, 1)))))
         except _Stop:
@@ -1380,7 +1422,7 @@ def run_ns(cfg):
     return {'evals': evals, 'viol': viol, 'sig': sorted(sigs), 'skipped': skipped,
             'trivial': evals == 0,
             'diag': [diag_runs, diag_nonmono], 'iters': [max(iters)] if iters else [],
-            'nfp': nfp}
+            'nfp': nfp, 'acc_iters': [max(acc_iters)] if acc_iters else []}
 
 
 # ----------------------------------------------------------------------------------------------
@@ -1413,6 +1455,7 @@ def _pool(shape, alph):
 
 
 K_LIVE = 4000
+K_ACC = 1500          # horizon of the accelerated pdhg runs (looser tolerances)
 COMBOS = [(0, 'plain'), (1, 'plain'), (0, 'w2'), (0, 'wa'), (1, 'wa'), (1, 'w2')]
 
 
@@ -1555,6 +1598,7 @@ def trace_functions():
 def summarize(results):
     diag_runs = diag_non = 0
     worst = {}
+    worst_acc = {}
     inadm = 0
     fp = {}
     for cfg, res in results:
@@ -1566,6 +1610,9 @@ def summarize(results):
         for k in res.get('iters') or []:
             key = '%s/%s' % (cfg['solver'], cfg['fam'])
             worst[key] = max(worst.get(key, 0), k)
+        for k in res.get('acc_iters') or []:
+            key = '%s/%s' % (cfg['solver'], cfg['fam'])
+            worst_acc[key] = max(worst_acc.get(key, 0), k)
         inadm += sum(1 for s in res['sig'] if 'default-inadmissible' in s)
         fp[cfg['solver']] = fp.get(cfg['solver'], 0) + (res.get('nfp') or 0)
     return {'diagnostic_lyapunov_runs': diag_runs,
@@ -1573,7 +1620,8 @@ def summarize(results):
             'default_step_rule_inadmissible_states': inadm,
             'fixed_point_step_settings_checked': dict(sorted(fp.items())),
             'max_iterations_to_converge': dict(sorted(worst.items())),
-            'liveness_horizon': K_LIVE}
+            'max_iterations_accelerated_pdhg': dict(sorted(worst_acc.items())),
+            'liveness_horizon': K_LIVE, 'liveness_horizon_accelerated': K_ACC}
 
 
 def meta(tier):
